@@ -10,6 +10,22 @@ TB = ("Lean 4.33 kernel + Mathlib v4.33; axioms per theorem within {propext, Cla
       "source by the correspondence suites named in the evidence file (harness/%s.py). ")
 
 CLAIMED = {
+ 'C02': dict(
+   text="Proof (Lean 4, over an arbitrary field K, all grid sizes/widths/coefficients/fields): the "
+        "model Emg.amat of core.amat_x equals on every interior edge the assembled operator "
+        "curl^T M_face(V/mu_r) curl - M_edge(eta) (two-cell face / four-cell edge averaging, "
+        "direction-dependent eta); near-boundary entries carry only the sigma term, far-boundary "
+        "entries are never written; curl(grad)=0 so the curl-curl part annihilates gradients; "
+        "curl^T is the transpose of curl on PEC fields (3-D summation by parts), hence the FIT "
+        "operator and the kernel are complex-symmetric; linearity; eta/zeta formulas. Tie to code: "
+        "amat_x.py_func executed in exact Gaussian-rational arithmetic equals the model entry by "
+        "entry on all shapes 1..4(5) per direction; real kernel vs Lean FIT spec on PEC fields; "
+        "compiled kernel vs its source within a computed rounding bound; VolumeModel vs the "
+        "documented coefficient formulas (all cases, mu_r, epsilon_r, f>0, f<0); residual() wrapper.",
+   design='§4 C02',
+   note=TB % 'c02' + "Modelled not verified: IEEE rounding and numba code generation (bounded "
+        "from outside by the jit-vs-source suite); property maps are C14's subject.",
+   technique='Lean 4 ring identities + summation by parts over a generic field; exact-rational correspondence with the kernel source'),
  'C05': dict(
    text="Proof (Lean 4) about the control model MGH.mgTrace of multigrid(): descent invariant "
         "(only even directions >2 are halved, never the semicoarsening direction, the degenerate "
